@@ -5,8 +5,9 @@ from props import trxcon_part, randburst_part
 ID = "C02"
 LEVEL = "proof"
 LEAN_MODULES = ["OsmoVerif.Props.C02"] + (["OsmoVerif.Props.Trxcon"] if ID == "C05" else []) + (randburst_part.LEAN_MODULES if ID == "C10" else [])
-LEAN_MODEL_MODULES = wc.LEAN_MODEL_MODULES + (trxcon_part.LEAN_MODEL_MODULES if ID == "C05" else []) + (randburst_part.LEAN_MODEL_MODULES if ID == "C10" else [])
-DRIVER_MODULES = wc.DRIVER_MODULES + (["TrxconIf"] if ID == "C05" else []) + (randburst_part.DRIVER_MODULES if ID == "C10" else [])
+LEAN_MODEL_MODULES = wc.LEAN_MODEL_MODULES + (trxcon_part.LEAN_MODEL_MODULES if ID == "C05" else []) + (randburst_part.LEAN_MODEL_MODULES if ID == "C10" else []) + \
+    (["OsmoVerif.Model.WorldSched"] if ID == "C03" else [])
+DRIVER_MODULES = wc.DRIVER_MODULES + (["TrxconIf"] if ID == "C05" else []) + (randburst_part.DRIVER_MODULES if ID == "C10" else []) + (["WorldSched"] if ID == "C03" else [])
 ASSUMPTIONS = wc.ASSUMPTIONS + [] + (randburst_part.ASSUMPTIONS if ID == "C10" else [])
 MANIFEST = {
     "text": "Lean theorems: forwardMsg calls handleDataMsg exactly once for each running other transceiver whose Rx frequency in FN (fixed or hopping per TS 45.002) equals the sender's Tx frequency, for no other; datagram delivered iff recipient and not suppressed and metadata valid; nothing to sender/idle/detuned; model tied to the real BurstForwarder/FakeTRX by whole-history correspondence; oracle judges the real routing decisions (traced handle_data_msg calls) against an independent reference incl. an independent hopping implementation",
@@ -26,6 +27,9 @@ def gen(run):
 
 def correspond(run, corr):
     wc.correspond(run, corr, CORR_PROFILES, 10000, 150000)
+    if ID == "C03":
+        # interleaving model vs the real code under forced schedules (one socket-thread operation x one tick, every boundary)
+        wc.sched_correspond(run, corr)
     if ID == "C05":
         trxcon_part.correspond(run, corr, parts=("cmd", "rsp"))
     if ID == "C10":
@@ -33,10 +37,12 @@ def correspond(run, corr):
 
 
 def search(run, corr, deep):
-    found = wc.oracle(run, corr, deep, ID, ORACLE_PROFILES, 6000, 100000)
+    found = 0
     if ID == "C03":
         # thread schedules: one socket-thread operation racing one tick at every atomic-action boundary
         found += wc.sched_oracle(run, corr, deep)
+    # the history oracle searches deeper when a proof or a tie broke, unless the schedule oracle has already produced the failing schedule
+    found += wc.oracle(run, corr, deep and not found, ID, ORACLE_PROFILES, 6000, 100000)
     if ID == "C05":
         # trxcon side: real trx_if.c command emission / response parser, and the cross run with the real toolkit
         found += trxcon_part.oracle(run, corr, deep, parts=("cmd", "rsp"))
